@@ -18,7 +18,7 @@ replay = make_replay('C10')
 FINISH = dict(
     rule='X/P: one obligation per path of the translated pack/unpack (whole function or region) per shape; T: one per half-float '
          'pattern / table entry; B: published packs and corpus round trips, non-trivial = molecule with a ring or stereo label',
-    explanation='The two codec sources are translated mechanically on every run and executed on proxies: field-by-field round trip and '
+    explanation='F: no memoised value read by this property\'s observables survives an edit it depends on (one obligation per covered mutator x cached key); The two codec sources are translated mechanically on every run and executed on proxies: field-by-field round trip and '
                 'published byte layout for all attribute values on enumerated shapes, inductive lemmas for the 12-bit pair stream (period 2) '
                 'and the 3-bit order stream (period 8 + tails), section offsets in the declared C types, role slices of reactions for all '
                 'counts 0..255. Whole molecules are covered by composition of these lemmas (traversal agreement is shape-bounded).',
